@@ -172,3 +172,37 @@ def go_json_coerce(b):
         out += b[i:i + w] if ok else b"\xef\xbf\xbd"
         i += w
     return bytes(out)
+
+
+def coq_deps(roots):
+    """Transitive closure of `From KP Require Import ...` starting at the given
+    files (paths relative to coq/, e.g. "props/C08.v")."""
+    seen, todo = set(), list(roots)
+    while todo:
+        f = todo.pop()
+        if f in seen:
+            continue
+        seen.add(f)
+        try:
+            src = open(os.path.join(COQ, f)).read()
+        except OSError:
+            continue
+        src = re.sub(r"\(\*.*?\*\)", "", src, flags=re.S)
+        for m in re.finditer(r"From\s+KP\s+Require\s+(?:Import|Export)\s+(.*?)\.(?=\s|$)", src, flags=re.S):
+            for mod in m.group(1).split():
+                todo.append(mod.replace(".", "/") + ".v")
+    return seen
+
+
+def gate_for(roots):
+    """coq_gate() restricted to the files the given roots depend on (other
+    properties' files may be under construction by other checks)."""
+    deps = coq_deps(roots)
+    names = {os.path.basename(d) for d in deps}
+    paths = {os.path.join(COQ, d) for d in deps}
+    out = []
+    for h in coq_gate():
+        where = h.split(":", 1)[0]
+        if where in paths or (os.sep not in where and where in names):
+            out.append(h)
+    return out
